@@ -468,6 +468,8 @@ class Segment:
         for other in sorted(set(list(disk_before) + list(disk_after))):
             if fired or op.get("nodir"):
                 break   # after an injected I/O error a left-over temporary file is no violation
+            if other in disk_before and other not in self.files:
+                continue   # debris of an earlier killed writer (e.g. its temporary file) may go
             if other != rel and disk_before.get(other) != disk_after.get(other):
                 self.fail("C12", "writer.touches_other_path", site,
                           "%r was %s while serialising to %r" % (
@@ -614,11 +616,18 @@ class Segment:
         elif kind == "utf8_break":
             # damage inside a multi-byte character: the file is no longer valid UTF-8
             idx = [i for i, byte in enumerate(data) if byte >= 0xC0]
-            if not idx:
-                rec["outcome"] = "skipped"
-                return
-            at = idx[int(op.get("frac", 0.5) * len(idx)) % len(idx)]
-            data[at + 1] = data[at + 1] & 0x7F if at + 1 < len(data) else 0x41
+            if idx:
+                at = idx[int(op.get("frac", 0.5) * len(idx)) % len(idx)]
+                data[at + 1] = data[at + 1] & 0x7F if at + 1 < len(data) else 0x41
+            else:
+                # a pure ASCII file (JSON written with \u escapes): one letter gets its top bit
+                # set, which is a byte sequence no UTF-8 decoder accepts
+                idx = [i for i, byte in enumerate(data) if 0x41 <= byte <= 0x7A]
+                if not idx:
+                    rec["outcome"] = "skipped"
+                    return
+                at = idx[int(op.get("frac", 0.5) * len(idx)) % len(idx)]
+                data[at] |= 0x80
         with simdisk.REAL_OPEN(self.abspath(rel), "wb") as fh:
             fh.write(bytes(data))
         self.stamp(rel)
@@ -754,18 +763,25 @@ class Segment:
                 bad = self.bridge.wellformed(model) + self.bridge.traverse(model)
             except Exception as err:  # noqa: BLE001
                 bad = [("wf.walk_raised", "%s: %s" % (type(err).__name__, err))]
-            wf_tags = list(tags)
-            for check, detail in bad:
-                wf_ok = False
-                self.fail("C02", check, site, detail, wf_tags)
-            if not bad:
-                self.probe("wellformed_checked")
             try:
                 observed = self.bridge.observe(model)
                 rec["model"] = sha(rm.cj(rm.flat(observed)))
             except Exception as err:  # noqa: BLE001
                 observed = None
                 self.fail("C02", "wf.walk_raised", site, "observe: %s" % type(err).__name__, tags)
+            wf_tags = list(tags)
+            if observed is not None:
+                # what the returned model itself contains (the document may be damaged or of
+                # unknown content, so the case is described from the model)
+                try:
+                    wf_tags.extend(t for t in rm.case_tags(observed) if t.startswith("ctc."))
+                except Exception:  # noqa: BLE001
+                    pass
+            for check, detail in bad:
+                wf_ok = False
+                self.fail("C02", check, site, detail, wf_tags)
+            if not bad:
+                self.probe("wellformed_checked")
             handle = op.get("as")
             expect_ref = None
             taint = not wf_ok or observed is None
